@@ -166,13 +166,15 @@ class World:
                 store = LogicalStore(self, i, self.normalising)
                 self.stores[i] = store
                 self.registry.add(node, store)
+        for fr, to in spec.get("back", []):
+            plan.add_dependency(self.node_of(fr), self.node_of(to))
         self.index_of = {}
         for i, n in enumerate(self.nodes):
             if isinstance(n, tuple):
                 for j, x in enumerate(n):
-                    self.index_of[x] = (i, j)
+                    self.index_of.setdefault(x, (i, j))
             else:
-                self.index_of[n] = i
+                self.index_of.setdefault(n, i)
 
     def node_of(self, ref):
         if "n" in ref:
@@ -240,11 +242,20 @@ class World:
             raise Dead()
         if hit:
             self.log("fault", idx, (kind, f["mode"]))
-            if f["mode"] == "before":
-                raise InjectedFault(f"injected fault at op {k} ({kind} {idx})")
-            if f["mode"] == "base":
-                raise InjectedBaseFault(f"injected base fault at op {k} ({kind} {idx})")
-            return f["mode"]
+            mode = f["mode"]
+            if mode == "after" and kind not in ("wr", "call"):
+                mode = "before"  # nothing takes effect in a read / modified-time query
+            exc = None
+            if mode == "before":
+                exc = InjectedFault(f"injected fault at op {k} ({kind} {idx})")
+            elif mode == "base":
+                exc = InjectedBaseFault(f"injected base fault at op {k} ({kind} {idx})")
+            if exc is not None:
+                self.raised.setdefault((kind, idx), []).append(exc)
+                if kind != "call":
+                    self.log(kind + "_raise", idx, type(exc).__name__)
+                raise exc
+            return mode
         return None
 
     def op_begin(self, kind, idx):
@@ -285,9 +296,10 @@ class World:
     # -- the call functions ---------------------------------------------------
     def on_call(self, i, nd, args, kwargs):
         try:
-            self._next_op("call", i)
+            fmode = self._next_op("call", i)
         except BaseException as e:
-            self.raised.setdefault(("call", i), []).append(e)
+            if not isinstance(e, (InjectedFault, InjectedBaseFault)):
+                self.raised.setdefault(("call", i), []).append(e)
             self.log("raise", i, type(e).__name__)
             raise
         with self.lock:
@@ -317,6 +329,8 @@ class World:
                 self.log("side_start", side, i)
                 store._set(W(value))
                 self.log("side_end", side, i)
+            if fmode == "after":
+                raise InjectedFault(f"injected after-effect fault in call {i}")
             self.pause("call")
         except BaseException as e:
             with self.lock:
